@@ -247,6 +247,21 @@ func errMain(args []string) {
 				rep.Fail(hx.Failure{Kind: "impl-violates-property", Key: "kind-not-recognised", Case: "err " + prog, Expected: "Any(result, " + sentinels[k].Error() + ")", Observed: e.Error()})
 			}
 		}
+		// the other recognisers agree with Any: None is its negation, sentinel by sentinel and over the whole list;
+		// the kind the serialised text announces (GetUnderlyingErrorType) is one the error is recognised as
+		for _, sn := range sentinels {
+			if commonerrors.None(e, sn) == commonerrors.Any(e, sn) {
+				rep.Fail(hx.Failure{Kind: "impl-violates-property", Key: "none-disagrees-with-any", Case: "err " + prog, Expected: "None = not Any for " + sn.Error(), Observed: e.Error()})
+			}
+		}
+		if commonerrors.None(e, sentinels...) == commonerrors.Any(e, sentinels...) {
+			rep.Fail(hx.Failure{Kind: "impl-violates-property", Key: "none-disagrees-with-any", Case: "err " + prog, Expected: "None(all kinds) = not Any(all kinds)", Observed: e.Error()})
+		}
+		if nd.depth > 0 && len(nd.kinds) == 1 && !strings.Contains(e.Error(), "\n") {
+			if ut, uerr := commonerrors.GetUnderlyingErrorType(e); uerr == nil && ut != nil && commonerrors.IsCommonError(ut) && !commonerrors.Any(e, ut) {
+				rep.Fail(hx.Failure{Kind: "impl-violates-property", Key: "announced-kind-not-recognised", Case: "err " + prog, Expected: "Any(result, GetUnderlyingErrorType(result))", Observed: e.Error() + " announces " + ut.Error()})
+			}
+		}
 		if nd.depth > 0 && nd.ctxCause && !commonerrors.Any(e, commonerrors.ErrCancelled, commonerrors.ErrTimeout) {
 			rep.Fail(hx.Failure{Kind: "impl-violates-property", Key: "context-cause-reclassified", Case: "err " + prog, Expected: "cancelled or timeout", Observed: e.Error() + " kinds=" + kindsOf(e)})
 		}
